@@ -141,7 +141,10 @@ def run_session(job):
             k = seed % 4
             cfgs = [(True, True, False), (False, False, False), (True, False, True), (False, True, False)]
             for ci, (bc, ws, gz) in enumerate(cfgs if opts.get("allcfg") else [cfgs[k], cfgs[(k + 1) % 4]]):
-                runs.append(one_run(d, f"c{ci}", base, names, bc, ws, gz, "base"))
+                lines = base[:]
+                if ci % 2 == 1:       # record types interleaved: S, L and other lines in a seeded random order
+                    rnd.shuffle(lines)
+                runs.append(one_run(d, f"c{ci}", lines, names, bc, ws, gz, "base" if ci % 2 == 0 else "shuffled"))
         else:  # C18
             orders = list(itertools.permutations(names)) if len(names) <= 3 else [names]
             for oi, order in enumerate(orders):
@@ -163,7 +166,10 @@ def run_session(job):
                 from gaftools.gfa import GFA
 
                 src = os.path.join(d, "rt_in.gfa")
-                write_text(src, "\n".join(base) + "\n")
+                rt_lines = base[:]
+                if seed % 2:
+                    rnd.shuffle(rt_lines)
+                write_text(src, "\n".join(rt_lines) + "\n")
                 g = GFA(src)
                 w1 = os.path.join(d, "rt1.gfa")
                 g.write_gfa(output_file=w1)
